@@ -681,7 +681,9 @@ func (s *Subscriber) idleHandlerCleaner() {
 		case now := <-t.C:
 			s.handlersMutex.Lock()
 			for pid, hnd := range s.handlers {
-				if now.After(hnd.expires) {
+				// A handler whose sync is still running, or waiting to run, is
+				// not idle no matter how long ago it was last looked up.
+				if now.After(hnd.expires) && hnd.isIdle() {
 					delete(s.handlers, pid)
 					log.Debugw("Removed idle handler", "peer", pid)
 				}
@@ -693,6 +695,23 @@ func (s *Subscriber) idleHandlerCleaner() {
 			return
 		}
 	}
+}
+
+// isIdle reports whether no sync is running, or waiting to run, for the
+// handler's publisher.
+func (h *handler) isIdle() bool {
+	if h.pendingMsg.Load() != nil {
+		return false
+	}
+	if !h.asyncMutex.TryLock() {
+		return false
+	}
+	defer h.asyncMutex.Unlock()
+	if !h.syncMutex.TryLock() {
+		return false
+	}
+	h.syncMutex.Unlock()
+	return true
 }
 
 // watch fetches announce messages from the Reciever.
